@@ -22,6 +22,8 @@ type Journal struct {
 	faults []Fault
 	count  map[string]int // calls per op in the current scan
 	CurG   func() string  // group whose scan is in progress
+	NowFn  func() int     // current virtual tick (nil: 0)
+	SlowFn func()         // a slow cloud call: lets one tick pass (nil: nothing)
 }
 
 func NewJournal() *Journal { return &Journal{count: map[string]int{}} }
@@ -90,6 +92,9 @@ func (j *Journal) MaybeCrash() {
 func (j *Journal) Add(c Call) {
 	if c.R == nil {
 		c.R = [][]int{}
+	}
+	if j.NowFn != nil {
+		c.T = j.NowFn()
 	}
 	j.mu.Lock()
 	defer j.mu.Unlock()
@@ -232,6 +237,9 @@ func (s *SimAWS) SetDesiredCapacity(in *autoscaling.SetDesiredCapacityInput) (*a
 	default:
 		c.Ok = true
 		a.Desired = v
+		if s.J.SlowFn != nil && s.J.HitOnce("slow", a.Group) { // the call takes one tick to be answered
+			s.J.SlowFn()
+		}
 	}
 	s.J.Add(c)
 	if !c.Ok {
@@ -470,6 +478,9 @@ func (e *SimEC2) CreateFleet(in *ec2.CreateFleetInput) (*ec2.CreateFleetOutput, 
 	}
 	c.Ok = true
 	s.J.Add(c)
+	if s.J.SlowFn != nil && s.J.HitOnce("slow", g) { // the instances take one tick to boot
+		s.J.SlowFn()
+	}
 	lo := s.FleetN
 	s.lastFleetLo, s.lastFleetN = lo, int(total)
 	out := &ec2.CreateFleetOutput{}
